@@ -71,9 +71,21 @@ func c02Variants(c *core.Ctx, f *c02Func, foi string, seq *int) {
 		}
 	}
 	roles := fo.ParamRoles(fd.Body)
-	for mask := 0; mask < 1<<n; mask++ {
-		v := &c02Variant{fc: f, mask: mask}
+	// the result annotation is a further annotation: written (": T") for compound result types with every subset
+	// of parameter annotations, and for the other types when every parameter annotation is erased - then it is
+	// the annotation alone that determines what the body leaves open (let wrap x : []int = [x])
+	compound := map[fo.Type]bool{"[]int": true, "int*string": true, "R": true, "U": true, "Opt<int>": true}
+	for mask2 := 0; mask2 < 2<<n; mask2++ {
+		mask := mask2 & (1<<n - 1)
+		retAnnotated := mask2>>n == 1
+		if retAnnotated && (f.fc.Ret == "" || f.fc.Ret == "unit" || !(compound[f.fc.Ret] || (n > 0 && mask == 1<<n-1))) {
+			continue
+		}
+		v := &c02Variant{fc: f, mask: mask2}
 		d := fd
+		if retAnnotated {
+			d.Ret = f.fc.Ret
+		}
 		d.Params = append([]fo.Param{}, fd.Params...)
 		skip := ""
 		for i := 0; i < n; i++ {
@@ -139,8 +151,11 @@ func c02Variants(c *core.Ctx, f *c02Func, foi string, seq *int) {
 		d.Name = v.name
 		p := fo.NewPrinter(nil)
 		v.src = strings.Join(p.Def(d), "\n") + "\n"
-		if mask == 0 {
+		if mask2 == 0 {
 			f.fullSig = v.wantSig
+		}
+		if retAnnotated {
+			c.Hist("variants_with_result_annotation", string(f.fc.Ret), 1)
 		}
 		v.sameAs = v.wantSig == f.fullSig && f.fullSig != ""
 		f.variants = append(f.variants, v)
@@ -299,6 +314,7 @@ func checkC02(c *core.Ctx) {
 	c.Set("max_params", maxParams)
 	// hand corpus: more than 10 type variables (_T10 sorts before _T9)
 	c02Corpus(c, sc, fc, foi)
+	c02ExternalGenerics(c, sc, fc, foi)
 }
 
 // c02Graphs enumerates functions `let f p0 .. p(n-1) (n:int) = let s0 = R0 ; let s1 = R1 ; let s2 = R2 ; (s0, s1, s2)`
@@ -557,6 +573,125 @@ func c02Sig(fd *ast.FuncDecl) string {
 		s += " " + types.ExprString(fd.Type.Results.List[0].Type)
 	}
 	return s
+}
+
+
+// c02ExternalGenerics: functions whose parameters have an EXTERNAL generic type (dict.Dict<K, V> of
+// pkg_all.foi): every dict function wrapped directly, piped into a consumer, and two of them combined, x every
+// subset of parameter annotations.  A type variable may then occur ONLY inside the type arguments of the
+// external type (has d (k:string) = dict.ContainsKey d k: V) - it still is a type parameter of the function.
+// Domain rule: a key type that stays a type variable needs Go's `comparable` constraint, which Folang does not
+// express (documented: "type constraints are not supported"); such variants are counted, not judged.
+func c02ExternalGenerics(c *core.Ctx, sc *impl.Scratch, fc string, foi string) {
+	V := func(n string) fo.Expr { return fo.Var{Name: n} }
+	app := func(f string, a ...fo.Expr) fo.Expr { return fo.App{Fn: f, Args: a} }
+	pipe := func(l, r fo.Expr) fo.Expr { return fo.BinOp{Op: "|>", L: l, R: r} }
+	D := fo.Param{Name: "d", Type: "dict.Dict<string, int>"}
+	D2 := fo.Param{Name: "e", Type: "dict.Dict<int, string>"}
+	K := fo.Param{Name: "k", Type: "string"}
+	Vp := fo.Param{Name: "v", Type: "int"}
+	type shape struct {
+		ps   []fo.Param
+		body *fo.Block
+	}
+	shapes := []shape{
+		{[]fo.Param{D, K, Vp}, fo.B(app("dict.Add", V("d"), V("k"), V("v")))},
+		{[]fo.Param{D, K}, fo.B(app("dict.ContainsKey", V("d"), V("k")))},
+		{[]fo.Param{D, K}, fo.B(app("dict.TryFind", V("d"), V("k")))},
+		{[]fo.Param{D, K}, fo.B(app("dict.Item", V("d"), V("k")))},
+		{[]fo.Param{D}, fo.B(app("dict.KVs", V("d")))},
+		{[]fo.Param{D}, fo.B(app("dict.Keys", V("d")))},
+		{[]fo.Param{D}, fo.B(app("dict.Values", V("d")))},
+		{[]fo.Param{D}, fo.B(pipe(app("dict.Keys", V("d")), V("slice.Length")))},
+		{[]fo.Param{D}, fo.B(pipe(app("dict.Values", V("d")), V("slice.Length")))},
+		{[]fo.Param{D}, fo.B(pipe(app("dict.KVs", V("d")), V("slice.IsEmpty")))},
+		{[]fo.Param{D, K}, fo.B(fo.BinOp{Op: "+", L: app("dict.Item", V("d"), V("k")), R: fo.IntLit{V: 1}})},
+		{[]fo.Param{D, K}, &fo.Block{Stmts: []fo.Stmt{fo.LetDestr{Names: []string{"x", "_"}, Rhs: app("dict.TryFind", V("d"), V("k"))}}, Final: V("x")}},
+		{[]fo.Param{D, K}, &fo.Block{Stmts: []fo.Stmt{fo.LetDestr{Names: []string{"_", "ok"}, Rhs: app("dict.TryFind", V("d"), V("k"))}}, Final: V("ok")}},
+		{[]fo.Param{D, D2}, fo.B(fo.Tuple{Es: []fo.Expr{app("dict.Keys", V("d")), app("dict.Values", V("e"))}})},
+		{[]fo.Param{D, D2}, fo.B(fo.Tuple{Es: []fo.Expr{pipe(app("dict.Values", V("d")), V("slice.Length")), pipe(app("dict.Keys", V("e")), V("slice.Length"))}})},
+		{[]fo.Param{D, D2, K}, fo.B(fo.BinOp{Op: "&&", L: app("dict.ContainsKey", V("d"), V("k")), R: pipe(app("dict.Keys", V("e")), V("slice.IsEmpty"))})},
+		{[]fo.Param{{Name: "ps", Type: "[](string*int)"}}, fo.B(app("dict.ToDict", V("ps")))},
+		{[]fo.Param{{Name: "ps", Type: "[](string*int)"}, K}, fo.B(app("dict.ContainsKey", app("dict.ToDict", V("ps")), V("k")))},
+		{[]fo.Param{D, {Name: "ds", Type: "[]dict.Dict<string, int>"}}, fo.B(pipe(fo.SliceLit{Es: []fo.Expr{V("d"), app("slice.Head", V("ds"))}}, V("slice.Length")))},
+	}
+	env := &gobatch.Env{Sc: sc, FC: fc, FCArgs: []string{sc.PkgAllFoi()}, Prelude: fo.Prelude, NoRunMain: true}
+	gens := map[string][2]string{}
+	var gmu sync.Mutex
+	env.OnGen = func(gen string) {
+		gmu.Lock()
+		for k, v := range c02ExtractFuncs(gen) {
+			gens[k] = v
+		}
+		gmu.Unlock()
+	}
+	type item struct {
+		name, src, want string
+		comparableNeeded bool
+	}
+	var items []item
+	var progs []gobatch.Prog
+	n := 0
+	for _, sh := range shapes {
+		for mask := 0; mask < 1<<len(sh.ps); mask++ {
+			d := fo.FuncDef{Name: fmt.Sprintf("f_%d", 800000+n), Body: sh.body}
+			n++
+			for i, p := range sh.ps {
+				if mask&(1<<i) != 0 {
+					p.Type = ""
+				}
+				d.Params = append(d.Params, p)
+			}
+			in := c02Inferer(foi)
+			ft, err := in.InferFunc(d)
+			if err != nil {
+				panic("c02 external generics: " + err.Error())
+			}
+			src := strings.Join(fo.NewPrinter(nil).Def(d), "\n") + "\n"
+			it := item{name: d.Name, src: src, want: fo.GoSig(ft, false)}
+			it.comparableNeeded = regexp.MustCompile(`dict\.Dict\[T\d+,`).MatchString(it.want)
+			items = append(items, it)
+			progs = append(progs, gobatch.Prog{Defs: src + fmt.Sprintf("\nlet run_%s () =\n  say \"x\"\n", d.Name), Run: "run_" + d.Name})
+		}
+	}
+	res := env.Run(progs)
+	for i, it := range items {
+		c.Count(1, 1, 1, 1)
+		c.DistinctNT(it.src, true)
+		c.Hist("by_construct", "external-generic-type", 1)
+		g := gens[it.name]
+		rep := map[string]any{"input": map[string]string{"t.fo": fo.Prelude + it.src}, "definition": it.src, "expected": it.want, "observed": res[i].Status + " " + g[0] + " " + trunc(res[i].Detail, 600)}
+		if it.comparableNeeded {
+			// the signature is still judged when fc accepted the definition; only the Go build is outside the promises
+			c.AddInt("external_generic_key_type_undetermined (needs comparable: build not judged)", 1)
+			if res[i].Status == "fc-reject" {
+				c.Violation("C02:external-generic:fc-reject", fmt.Sprintf("fc rejects %s\n%s", firstLines(res[i].Detail, 2), it.src), rep)
+				continue
+			}
+			if g[0] != "" && g[0] != it.want {
+				c.Violation("C02:external-generic:signature", fmt.Sprintf("emitted signature %s, principal type %s\n%s", g[0], it.want, it.src), rep)
+				continue
+			}
+			c.Outcome("agree")
+			continue
+		}
+		if res[i].Status == "go-build" && strings.Contains(res[i].Detail, "does not satisfy comparable") && (g[0] == "" || g[0] == it.want) {
+			// the undetermined key type is hidden inside the body (dict.ToDict ps): same documented limit
+			c.AddInt("external_generic_key_type_undetermined (needs comparable: build not judged)", 1)
+			c.Outcome("agree")
+			continue
+		}
+		if res[i].Status != "ok" {
+			c.Violation("C02:external-generic:"+res[i].Status, fmt.Sprintf("%s %s (principal type %s)\n%s", res[i].Status, firstLines(res[i].Detail, 2), it.want, it.src), rep)
+			continue
+		}
+		if g[0] != it.want {
+			c.Violation("C02:external-generic:signature", fmt.Sprintf("emitted signature %s, principal type %s\n%s", g[0], it.want, it.src), rep)
+			continue
+		}
+		c.Outcome("agree")
+	}
+	c.Set("external_generic_functions", len(items))
 }
 
 // c02Corpus: shapes the fuel bound does not reach.
